@@ -12,6 +12,7 @@
 """Inventory handlers for Placement API."""
 
 import copy
+import math
 import operator
 
 from oslo_db import exception as db_exc
@@ -82,6 +83,11 @@ def make_inventory_object(resource_provider, resource_class, **data):
     # 0) for non-negative integers. It's not clear if that is
     # duplication or decoupling so leaving it as this for now.
     try:
+        # NaN and (negative) infinity pass the "maximum" of the JSON schema
+        # but are neither storable nor usable in the capacity arithmetic.
+        ratio = data.get('allocation_ratio')
+        if isinstance(ratio, float) and not math.isfinite(ratio):
+            raise ValueError('allocation_ratio must be a finite number')
         inventory = inv_obj.Inventory(
             resource_provider=resource_provider,
             resource_class=resource_class, **data)
